@@ -136,6 +136,7 @@ pub fn derive_plans(rng: &mut Rng, tier: Tier, count: usize) -> Vec<Plan> {
     let enable_identity = rng.chance(1, 2);
     let enable_repeat = tier == Tier::InProc && rng.chance(1, 2);
     let enable_stall = tier == Tier::Exec && rng.chance(1, 2);
+    let enable_history = rng.chance(1, 2);
     while plans.len() < count {
         let roll = rng.below(100);
         let mut plan = if enable_extreme && roll < 5 {
@@ -225,9 +226,70 @@ pub fn derive_plans(rng: &mut Rng, tier: Tier, count: usize) -> Vec<Plan> {
         if force_repeat || (enable_repeat && rng.chance(1, 6)) {
             plan.repeat = rng.range(1, 3) as u32;
         }
+        if enable_history && rng.chance(1, 4) {
+            plan.prior_edit = rng.range(1, 1 << 30) as u32;
+        }
         plans.push(plan);
     }
     plans
+}
+
+/// A sibling version of a source file for the history fault: the same number of bytes, one to
+/// three small edits (another digit, another operator, a boolean for a number of the same width,
+/// `bool` for `type`, two names of equal length exchanged). `None` if nothing in the text can be
+/// edited that way. A function of (source, seed) only.
+pub fn sibling_source(source: &[u8], seed: u32) -> Option<Vec<u8>> {
+    let text = std::str::from_utf8(source).ok()?;
+    let mut rng = Rng::derive(u64::from(seed), 0x5157, source.len() as u64);
+    let mut bytes = source.to_vec();
+    // candidate sites: (offset, replacement)
+    let mut sites: Vec<(usize, Vec<u8>)> = vec![];
+    let b = text.as_bytes();
+    let is_word = |c: u8| c.is_ascii_alphanumeric() || c == b'_' || c >= 0x80;
+    let mut i = 0;
+    while i < b.len() {
+        let c = b[i];
+        if is_word(c) {
+            let start = i;
+            while i < b.len() && is_word(b[i]) {
+                i += 1;
+            }
+            let word = &b[start..i];
+            let repl: Option<&[u8]> = match word {
+                b"true" => Some(b"1234"),
+                b"false" => Some(b"12345"),
+                b"bool" => Some(b"type"),
+                b"type" => Some(b"bool"),
+                b"int" => Some(b"123"),
+                _ => None,
+            };
+            if let Some(r) = repl {
+                sites.push((start, r.to_vec()));
+            } else if word.iter().all(u8::is_ascii_digit) {
+                let k = rng.below(word.len());
+                let mut w = word.to_vec();
+                w[k] = b'0' + ((w[k] - b'0' + 1 + rng.below(8) as u8) % 10);
+                sites.push((start, w));
+                if word.len() == 4 {
+                    sites.push((start, b"true".to_vec()));
+                }
+            }
+            continue;
+        }
+        if (c == b'+' || c == b'*') && i + 1 < b.len() && b[i + 1] == b' ' && i > 0 && b[i - 1] == b' ' {
+            sites.push((i, vec![if c == b'+' { b'*' } else { b'+' }]));
+        }
+        i += 1;
+    }
+    if sites.is_empty() {
+        return None;
+    }
+    let edits = rng.range(1, 3).min(sites.len());
+    for _ in 0..edits {
+        let (at, repl) = sites[rng.below(sites.len())].clone();
+        bytes[at..at + repl.len()].copy_from_slice(&repl);
+    }
+    if bytes == source { None } else { Some(bytes) }
 }
 
 /// Derive group `idx` of `tier` for `seed`. A function of (seed, tier, idx, corpus) only.
@@ -342,6 +404,8 @@ pub struct Outcome {
     pub orders: Vec<String>,
     /// harness self-check: launches in which the mirror of `run` and the real `run` disagreed
     pub mirror_mismatches: u64,
+    /// launches that were preceded by a launch on a sibling version of the file at the same path
+    pub history_faults: u64,
 }
 
 fn colour_override(colour: Colour) {
@@ -559,6 +623,70 @@ fn file_metadata_fault(path: &Path, source: &[u8], plan: &Plan) {
     }
 }
 
+/// One launch of `spec` under `plan`, in whichever tier and isolation mode the group uses.
+/// `Err((status, note))` ends the group without a verdict.
+#[allow(clippy::too_many_arguments)]
+fn launch_one(
+    spec: &Spec,
+    path_arg: &str,
+    dir: &Path,
+    plan: &Plan,
+    envs: &Envs,
+    tag: &str,
+    orders: &mut Vec<String>,
+    mirror_mismatches: &mut u64,
+) -> Result<(LaunchObs, CallLog), (String, String)> {
+let (obs, log) = match spec.tier {
+        Tier::InProc if spec.isolation == "process" => {
+            obs_inproc_isolated(spec, &path_arg, &dir, plan, envs, orders, mirror_mismatches)
+        }
+        Tier::InProc => {
+            obs_inproc(spec, &path_arg, &dir, plan, envs.step_budget, orders, mirror_mismatches)
+        }
+        Tier::Exec => {
+            let launched = if spec.launcher == "fork" {
+                sim_exec::launch_forked(&envs.exec, &envs.exec.gram, &spec.form.argv(&path_arg), &dir, &dir, spec.colour, plan, tag)
+            } else {
+                sim_exec::launch_gram(&envs.exec, spec.form, &path_arg, &dir, &dir, spec.colour, plan, tag)
+            };
+            match launched {
+                Ok((o, log)) => {
+                    let abnormal = match &o.ending {
+                        Ending::Exit(_) => None,
+                        Ending::Signal(s) => Some(format!("signal {s}")),
+                        Ending::TimedOut => Some("timeout".to_owned()),
+                    };
+                    let status = match &o.ending {
+                        Ending::Exit(c) => c.to_string(),
+                        Ending::Signal(s) => format!("signal {s}"),
+                        Ending::TimedOut => "timeout".to_owned(),
+                    };
+                    (
+                        LaunchObs {
+                            abnormal,
+                            fields: vec![
+                                ("status".to_owned(), status),
+                                ("stdout".to_owned(), String::from_utf8_lossy(&o.stdout).into_owned()),
+                                ("stderr".to_owned(), String::from_utf8_lossy(&o.stderr).into_owned()),
+                            ],
+                        },
+                        log,
+                    )
+                }
+                Err(e) if spec.launcher == "fork" => {
+                    // the fork server lost sync (it is restarted for the next group); nothing
+                    // can be concluded about this group
+                    return Err(("skipped_resource".to_owned(), format!("fork server: {e}")));
+                }
+                Err(e) => {
+                    return Err(("harness_error".to_owned(), e));
+                }
+            }
+        }
+    };
+    Ok((obs, log))
+}
+
 pub fn run_spec(spec: &Spec, envs: &Envs, scratch_tag: &str, stop_at_first: bool) -> Outcome {
     let mut out = Outcome {
         status: "ok".to_owned(),
@@ -569,6 +697,7 @@ pub fn run_spec(spec: &Spec, envs: &Envs, scratch_tag: &str, stop_at_first: bool
         differing: None,
         orders: vec![],
         mirror_mismatches: 0,
+        history_faults: 0,
     };
     let dir = envs.work.join(scratch_tag);
     let link_name = format!("q{}", &spec.file_name[1.min(spec.file_name.len())..]);
@@ -623,59 +752,52 @@ pub fn run_spec(spec: &Spec, envs: &Envs, scratch_tag: &str, stop_at_first: bool
 
     let file_on_disk = spec.tier == Tier::Exec || (spec.mode == "main" && sim_inproc::real_main_available());
     for (i, plan) in spec.plans.iter().enumerate() {
-        if file_on_disk {
-            file_metadata_fault(&dir.join(&spec.file_name), &spec.source, plan);
-        }
-        let (obs, log) = match spec.tier {
-            Tier::InProc if spec.isolation == "process" => {
-                obs_inproc_isolated(spec, &path_arg, &dir, plan, envs, &mut out.orders, &mut out.mirror_mismatches)
-            }
-            Tier::InProc => {
-                obs_inproc(spec, &path_arg, &dir, plan, envs.step_budget, &mut out.orders, &mut out.mirror_mismatches)
-            }
-            Tier::Exec => {
-                let launched = if spec.launcher == "fork" {
-                    sim_exec::launch_forked(&envs.exec, &envs.exec.gram, &spec.form.argv(&path_arg), &dir, &dir, spec.colour, plan, &format!("l{i}"))
-                } else {
-                    sim_exec::launch_gram(&envs.exec, spec.form, &path_arg, &dir, &dir, spec.colour, plan, &format!("l{i}"))
-                };
-                match launched {
-                    Ok((o, log)) => {
-                        let abnormal = match &o.ending {
-                            Ending::Exit(_) => None,
-                            Ending::Signal(s) => Some(format!("signal {s}")),
-                            Ending::TimedOut => Some("timeout".to_owned()),
-                        };
-                        let status = match &o.ending {
-                            Ending::Exit(c) => c.to_string(),
-                            Ending::Signal(s) => format!("signal {s}"),
-                            Ending::TimedOut => "timeout".to_owned(),
-                        };
-                        (
-                            LaunchObs {
-                                abnormal,
-                                fields: vec![
-                                    ("status".to_owned(), status),
-                                    ("stdout".to_owned(), String::from_utf8_lossy(&o.stdout).into_owned()),
-                                    ("stderr".to_owned(), String::from_utf8_lossy(&o.stderr).into_owned()),
-                                ],
-                            },
-                            log,
-                        )
-                    }
-                    Err(e) if spec.launcher == "fork" => {
-                        // the fork server lost sync (it is restarted for the next group); nothing
-                        // can be concluded about this group
-                        out.status = "skipped_resource".to_owned();
-                        out.note = format!("fork server: {e}");
-                        break;
-                    }
-                    Err(e) => {
-                        out.status = "harness_error".to_owned();
-                        out.note = e;
-                        break;
+        if file_on_disk && plan.prior_edit != 0 && spec.isolation != "process" {
+            if let Some(sibling) = sibling_source(&spec.source, plan.prior_edit) {
+                // history fault: the path held a sibling version, which was launched; the true
+                // bytes come back with the same modification time
+                let file = dir.join(&spec.file_name);
+                let mut earlier = spec.clone();
+                earlier.source = sibling;
+                let wrote = fs::write(&file, &earlier.source).is_ok();
+                if wrote {
+                    let mut earlier_plan = plan.clone();
+                    earlier_plan.key[2] &= 0xfe; // edited in place: same inode
+                    file_metadata_fault(&file, &earlier.source, &earlier_plan);
+                    let mut scratch_orders = vec![];
+                    let mut scratch_mismatches = 0u64;
+                    let tag = format!("h{i}");
+                    let prior = launch_one(&earlier, &path_arg, &dir, plan, envs, &tag, &mut scratch_orders, &mut scratch_mismatches);
+                    let _ = fs::write(&file, &spec.source);
+                    match prior {
+                        Ok((o, _)) if o.abnormal.as_deref() == Some("timeout") => {
+                            out.status = "skipped_divergent".to_owned();
+                            break;
+                        }
+                        Ok(_) => out.history_faults += 1,
+                        Err((status, note)) => {
+                            out.status = status;
+                            out.note = note;
+                            break;
+                        }
                     }
                 }
+            }
+        }
+        if file_on_disk {
+            let mut p = plan.clone();
+            if plan.prior_edit != 0 {
+                p.key[2] &= 0xfe; // an in-place edit keeps the inode
+            }
+            file_metadata_fault(&dir.join(&spec.file_name), &spec.source, &p);
+        }
+        let tag = format!("l{i}");
+        let (obs, log) = match launch_one(spec, &path_arg, &dir, plan, envs, &tag, &mut out.orders, &mut out.mirror_mismatches) {
+            Ok(pair) => pair,
+            Err((status, note)) => {
+                out.status = status;
+                out.note = note;
+                break;
             }
         };
         out.launches += 1;
